@@ -36,6 +36,19 @@ Theorem server_tx_per_peer : forall cas ops ca,
 Proof. exact s_run_inv. Qed.
 Print Assumptions server_tx_per_peer.
 
+(* PACKETS FOR DROPPED PEERS DO NOT BLOCK THE OTHERS.  After any history (connections may be
+   dropped: SDrop), if at most n queued packets are addressed to something that is not (or no
+   longer) a connection, then n+1 further stack service passes -- each may report one ValueError
+   and loses exactly that packet -- empty the stack queue, and every connection then holds, sent
+   or waiting in its deque, exactly the packets queued for it, in order. *)
+Theorem server_tx_past_dropped_peers : forall cas ops n,
+  (unknowns (stxq (s_run cas ops)) (sconns (s_run cas ops)) <= n)%nat ->
+  let s' := s_run cas (ops ++ repeat SSvcStack (S n)) in
+  stxq s' = [] /\
+  forall ca c, get ca (sconns s') = Some c -> wire c ++ concat (txes c) = concat (to ca (squeued s')).
+Proof. exact tx_past_dropped. Qed.
+Print Assumptions server_tx_past_dropped_peers.
+
 (* one stack pass moves every queued packet for connected peers to their connections, and an
    accepting connection pass then delivers everything *)
 Theorem connection_tx_drains : forall c orc,
